@@ -199,7 +199,7 @@ class RfProp(Prop):
 
     def gen(self, tier, rng):
         cases = []
-        maxlen = 5 if tier == "quick" else 7
+        maxlen = 5 if tier == "quick" else 6
         sizes = (2, 3, 4, 8) if tier == "quick" else (0, 1, 2, 3, 4, 5, 8)
         for which in (0, 1, 2):
             for st in self.streams(which, maxlen):
@@ -223,7 +223,7 @@ class RfProp(Prop):
                                 script = [(0, 1, 0)] * 2
                                 cases.append(mk_case(size, which, [122] * junk + st[:j], junk, rest, script, 4, 0, "preloaded"))
         # random larger scenarios
-        nrand = 3000 if tier == "quick" else 80000
+        nrand = 3000 if tier == "quick" else 60000
         for _ in range(nrand):
             cases.append(self.random_case(rng))
         cases += self.extra_cases(tier, rng)
@@ -445,7 +445,7 @@ class C06(RfProp):
 
     def gen(self, tier, rng):
         cases = []
-        maxlen = 4 if tier == "quick" else 6
+        maxlen = 4 if tier == "quick" else 5
         for which in (0, 1, 2):
             for st in self.streams(which, maxlen):
                 for size in ((3, 4) if tier == "quick" else (2, 3, 4, 8)):
@@ -458,7 +458,7 @@ class C06(RfProp):
                             for fault in ((1, 5, 0), (1, 3, 0), (2, 0, 0), (1, 6, 0), (1, 2, 0)) if (pos + len(st)) % 2 == 0 else ((1, 4, 0), (1, 7, 0), (1, 1, 0)):
                                 script = base[:pos] + [fault] + base[pos:]
                                 cases.append(mk_case(size, which, [], 0, st, script, min(len(st) + 4, 8), 0, "fault-at-every-index"))
-        for _ in range(3000 if tier == "quick" else 80000):
+        for _ in range(3000 if tier == "quick" else 60000):
             cases.append(self.random_case(rng))
         return cases
 
